@@ -814,13 +814,17 @@ func (b *Builder) planReplace() stepPlan {
 		}
 	}
 	// add voter + remove voter OR add learner + remove learner.
+	// When one add and one remove are all that is pending, it is a replacement whatever the
+	// kinds are (a learner replaced by a voter or vice versa): pair them too, so that the
+	// new peer is added before the old one is removed.
+	single := len(b.toAdd) == 1 && len(b.toRemove) == 1 && len(b.toPromote) == 0 && len(b.toDemote) == 0
 	for _, i := range b.toAdd.IDs() {
 		add := b.toAdd[i]
 		for _, j := range b.toRemove.IDs() {
 			remove := b.toRemove[j]
 			// The store of `add` must be free: without demote support a voter -> learner
 			// change is a remove + add on the same store, and the add has to wait for it.
-			if core.IsLearner(remove) == core.IsLearner(add) && b.currentPeers[i] == nil {
+			if (core.IsLearner(remove) == core.IsLearner(add) || single) && b.currentPeers[i] == nil {
 				best = b.planReplaceLeaders(best, stepPlan{add: add, remove: remove})
 			}
 		}
